@@ -71,6 +71,10 @@ def run(ctx):
             return True
         return False
     V.selftest_corrupt(ctx, "Trace_PersonName", rep2["trace"], corrupt, "a truncated recorded text")
+    # growth beyond C17 (thorough tier only, observation only): to_person_name on stored values
+    if not q:
+        rep3 = vlib.run_driver("drv_pname", ["grow", "--n", 3000, "--out", ctx.path("grow")], env=ctx.env())
+        V.observe(ctx, rep3["trace"], "to_person_name on stored values")
     ctx.exhaustive = False
 
 
